@@ -3839,6 +3839,9 @@ class Sampler:
 
     def free_ok(self, a: Atom, depth=0):
         k = a.kind
+        if k == "app" and str(a.key).startswith("repo:"):
+            # a repository function that was not interpreted (inline policy): its range is NOT arbitrary, so no witness may assign it a value
+            return False
         if k in ("sym", "hav", "attr", "app", "new", "D", "n2", "size", "sum"):
             return True
         if k == "ext":
